@@ -211,7 +211,8 @@ func appendInt(p *thrift.BinaryProtocol, typ thrift.Type, out *[]byte) error {
 		if err != nil {
 			return err
 		}
-		*out = append(*out, s...)
+		// the string goes between the quotes written around the value: escape it
+		json.NoQuote(out, s)
 	default:
 		return meta.NewError(meta.ErrUnsupportedType, fmt.Sprintf("unsupported type: %v", typ), nil)
 	}
